@@ -314,7 +314,8 @@ class X12Reader(X12Base):
             if src_file_obj == '-':
                 self.fd_in = sys.stdin
             else:
-                self.fd_in = open(src_file_obj, 'r', encoding='ascii')
+                # no newline translation: CR and LF may be delimiters or data
+                self.fd_in = open(src_file_obj, 'r', encoding='ascii', newline='')
                 self.need_to_close = True
         X12Base.__init__(self)
         try:
